@@ -55,7 +55,10 @@ def gen_instance(rng, tier, kind=None):
             for _ in range(rng.randint(1, 3)):
                 i, j = sorted(rng.sample(range(n), 2))
                 cs.append((order[j], order[i], rng.choice([0, 1, 2, 5])))   # a back edge: may close a contradictory cycle
-    return {"kind": kind, "d": ds, "w": ws, "s": ss, "cs": cs}
+    inst = {"kind": kind, "d": ds, "w": ws, "s": ss, "cs": cs}
+    if kind in ("dag", "chain", "ties") and rng.random() < 0.15:
+        inst["presolve"] = [d + rng.choice([-7, -3, 0, 2.5, 11]) * rng.random() for d in ds]
+    return inst
 
 
 F1_WITNESS = {"kind": "dag", "d": [9, 10, 9, 7, 0], "w": [1e10, 1, 10, 1e10, 1], "s": [1, 1, 1, 1, 1],
@@ -68,6 +71,25 @@ def build(inst, exact):
     conv = (lambda x: Fraction(x)) if exact else (lambda x: x)
     vs = [vpsc.Variable(conv(d), conv(w), conv(s)) for d, w, s in zip(inst["d"], inst["w"], inst["s"])]
     cs = [vpsc.Constraint(vs[l], vs[r], conv(g)) for l, r, g in inst["cs"]]
+    if inst.get("presolve"):
+        # the SAME Variable / Constraint objects were solved before with other desired positions (a caller that re-solves after moving
+        # its targets builds a new Solver on the old objects): whatever the first solve left in them must not matter
+        for v, d in zip(vs, inst["presolve"]):
+            v.desiredPosition = conv(d)
+        orig = vpsc.Variable.dfdv
+        if exact:
+            vpsc.Variable.dfdv = lambda self: 2 * self.weight * (self.position() - self.desiredPosition)
+        try:
+            signal.signal(signal.SIGALRM, _alarm)
+            signal.alarm(20)
+            try:
+                vpsc.Solver(vs, cs).solve()
+            finally:
+                signal.alarm(0)
+        finally:
+            vpsc.Variable.dfdv = orig
+        for v, d in zip(vs, inst["d"]):
+            v.desiredPosition = conv(d)
     return vpsc, vs, cs
 
 
